@@ -384,6 +384,9 @@ func (r *aRun) evaluate(out *Outcome) {
 	if out.Res.SpawnStalls > 0 {
 		out.fault("slow_goroutine_start", out.Res.SpawnStalls)
 	}
+	if out.Res.YieldStalls > 0 {
+		out.fault("descheduled_goroutine", out.Res.YieldStalls)
+	}
 	if r.fs != nil {
 		out.probe("fs_ops", r.fs.OpCount())
 		out.probe("chunk_files_written", r.fs.Stats.Ops["rename"])
